@@ -487,6 +487,27 @@ def _repr_culprit(o, depth=0, raises=False, by_eq=False):
     return o
 
 
+K_SYMPY_NUMBER = "C11:repr-prints-sympy-number-parameter-as-float"
+
+
+def _only_sympy_number_vs_float(cul, diffs):
+    """explained-by test: the culprit holds a sympy *number* (no free symbols, e.g. what a cancelling expression simplifies
+    to) as a parameter, and every difference after eval(repr) is that number against the float of the same value"""
+    import sympy
+
+    g = getattr(cul, "gate", None) if type(cul).__name__ == "GateOperation" else None
+    vals = list(vars(g if g is not None else cul).values()) if hasattr(g if g is not None else cul, "__dict__") else []
+    if not any(isinstance(v, sympy.Basic) and not v.free_symbols for v in vals) or not diffs:
+        return False
+    for d in diffs:
+        try:
+            if abs(float(sympy.sympify(d.a)) - float(sympy.sympify(d.b))) > 1e-12:
+                return False
+        except Exception:  # noqa
+            return False
+    return True
+
+
 def _blame_name(cul):
     """Class named in a repr mechanism key: an operation that merely applies a gate is blamed on the gate."""
     g = getattr(cul, "gate", None)
@@ -839,6 +860,8 @@ def check_value(ctx, v, origin, light=False, repr_checks=True):
             cul = _repr_culprit(x, by_eq=True)
             known = _classify(zdiffs, [], None, eqz, "repr") if zdiffs else None
             key = known if known in KNOWN_FIELDS.values() else "C11:repr-eval-not-equal:" + _blame_name(cul)
+            if key.startswith("C11:repr-eval-not-equal:") and _only_sympy_number_vs_float(cul, zdiffs):
+                key = K_SYMPY_NUMBER
             ctx.check(False, "repr-eval-eq", key,
                       lambda: "eval(repr(x)) != x; differences: %s; innermost object whose repr does not evaluate back: %s"
                               % (_diff_txt(zdiffs), repr(cul)[:300]), **wit)
